@@ -191,12 +191,18 @@ def run(pm, ctx):
                       site="handled-but-unlisted")
     else:
         ctx.ok("C01-a", "every handled name is listed")
-    # unknown names raise
-    guard = [s for s in f.body if isinstance(s, ast.If) and "not in AVAILABLE_GEMINIS" in norm_src(s.test) and s.body and isinstance(s.body[-1], ast.Raise)]
-    if guard and f.body.index(guard[0]) <= 1:
+    # unknown names raise: the function is evaluated on a name outside the list; the only outcome may be a raise
+    I0 = Interp(pm)
+    res0 = I0.call_function(u, f, [StrV("__not-a-gemini__")], {}, qual="_str_to_gemini")
+    raised = [st for q, st in I0.raise_log if q == "_str_to_gemini"]
+    if raised and (res0 is None or isinstance(res0, NoneV)):
         ctx.ok("C01-a", "unknown names raise before the dispatch")
+    elif isinstance(res0, Obj):
+        ctx.violation("C01-a", u.relpath, "_str_to_gemini", "unknown-name guard", f"a name outside AVAILABLE_GEMINIS builds {res0!r} instead of being rejected", line=f.lineno, site="unknown names")
+    elif not raised and (res0 is None or isinstance(res0, NoneV)):
+        ctx.violation("C01-a", u.relpath, "_str_to_gemini", "unknown-name guard", "unknown names are not rejected: the function returns None for them", line=f.lineno, site="unknown names")
     else:
-        ctx.violation("C01-a", u.relpath, "_str_to_gemini", "unknown-name guard", "unknown names are not rejected up front", line=f.lineno, site="unknown names")
+        ctx.undecided_site("C01-a", "unknown names", f"abstract outcome for an unknown name: {res0!r}")
     # estimator constraint is the list
     tab = te.class_constraints(pm.classes["DiscriminativeModel"])
     strs = [d for d in tab.get("gemini", []) if d.kind == "strs"]
@@ -248,11 +254,13 @@ def run(pm, ctx):
     for cname in ("TVGEMINI", "MMDGEMINI", "WassersteinGEMINI"):
         for ovo in (True, False):
             vals = []
+            I_box = [None]
 
             def hook(st, fr, value, events, vals=vals):
-                if fr.qual.endswith(".evaluate") and isinstance(value, Arr):
+                if isinstance(value, Arr) and any(q_.endswith(".evaluate") for q_ in [fr.qual] + [getattr(f_, "qual", "") for f_ in getattr(I_box[0], "stack", [])]):
                     vals.append((st, value))
             I = Interp(pm)
+            I_box[0] = I
             I.stmt_hook = hook
             ci = pm.classes[cname]
             g = I.construct(ci, [], {"ovo": Num("b", const=ovo)}, None)
@@ -262,6 +270,8 @@ def run(pm, ctx):
             site = f"{cname}.evaluate[ovo={ovo}]: pairwise tensor"
             if ovo and pair:
                 ctx.ok("C01-c", site, f"{norm_src(pair[0][0])[:60]} : {pair[0][1]!r}")
+            elif ovo and (I.top_log or is_top(res)):
+                ctx.undecided_site("C01-c", site, f"the abstract interpretation lost a value ({(I.top_log[0][0] if I.top_log else 'result unknown')})")
             elif ovo:
                 ctx.violation("C01-c", ci.unit.relpath, f"{cname}.evaluate", "one-vs-one branch", "the one-vs-one score is computed without any cluster-by-cluster quantity",
                               line=ci.methods["evaluate"].lineno, site=site)
